@@ -9,8 +9,7 @@ theorem f_T_ptr4_ptl (s : St) (p : Pid) (e0 : Elem) (ok : Bool) (e) : Inv s → 
     Inv (applySto { s with bufT := upd s.bufT p [.baseI (s.lb - 1) e0] } (.ptr (s.lb - 1) (some e0))) := by
   intro h hopc hl h0 h1
   simp only [applySto]
-  cases h; simp only [hopc, ownerLocked, carry, resetting, ownerFlight] at *
-  tso_finish3
+  tso_fastO h hopc [tp3, tp4, carryC]
 
 set_option maxHeartbeats 4000000 in
 theorem f_T_ptr4_cll (s : St) (p : Pid) (e0 : Elem) (ok : Bool) : Inv s → s.opc = .cll → s.lock = .thief p →
@@ -18,7 +17,6 @@ theorem f_T_ptr4_cll (s : St) (p : Pid) (e0 : Elem) (ok : Bool) : Inv s → s.op
     Inv (applySto { s with bufT := upd s.bufT p [.baseI (s.lb - 1) e0] } (.ptr (s.lb - 1) (some e0))) := by
   intro h hopc hl h0 h1
   simp only [applySto]
-  cases h; simp only [hopc, ownerLocked, carry, resetting, ownerFlight] at *
-  tso_finish3
+  tso_fastO h hopc [tp3, tp4, carryC]
 
 end MythVerif.WsqTso
